@@ -22,6 +22,10 @@ def run(model, rep, tier):
     r6_writer_total_on_strings(ctx, rep)
     r7_one_file_per_suite(ctx, rep)
     r8_record_is_total(ctx, rep)
+    # the reports of a layer run in a subprocess are written by that child, after its report phase:
+    # nothing in that phase may fail (shared with C07.R11)
+    from . import c07
+    c07.r11_nothing_printed_after_the_report(ctx, rep, 'C17.R9')
     rep.units['cfg'] = ctx.cfg_stats
 
 
